@@ -622,6 +622,103 @@ async def s_queue() -> List[str]:
     return viol
 
 
+async def s_control_session() -> List[str]:
+    """a real ControlSession (handshake, listen loop) over a stand-in pool class with concrete annotations (the shipped
+    classes cannot be served on this tree: known finding F6); replies are compared with direct calls on a twin (C16-C18)"""
+    import contextlib
+    import io
+    import json as _json
+    from unittest.mock import MagicMock
+
+    from asyncio_taskpool.control.session import ControlSession
+
+    from replay.dummy_pool import Dummy
+
+    viol: List[str] = []
+    pool, twin = Dummy(), Dummy()
+    lines = ["add 1", "add 1 -b 5", "nope", "add", "add x", "-h", "add -h", "nothing", "empty", "many 1 2 3 --sep -", "limit", "limit 5", "limit", "limit -1",
+             "wait-boom", "wait-boom -f", "don't", "add 1 -b it's", 'limit "7', "stat\\", "big", "add -h", "add 2 -b 2"]
+
+    async def expected(line: str):
+        tok = line.split(" ")
+        try:
+            if tok[0] == "add" and len(tok) in (2, 4) and "-h" not in tok:
+                b = int(tok[3]) if len(tok) == 4 else 2
+                return str(twin.add(int(tok[1]), b))
+            if line == "nothing":
+                return "ok" if twin.nothing() is None else "?"
+            if line == "empty":
+                return str(twin.empty())
+            if tok[0] == "many":
+                return twin.many(1, 2, 3, sep="-")
+            if line == "limit":
+                return str(twin.limit)
+            if line == "limit 5":
+                twin.limit = 5
+                return "ok"
+            if line == "limit -1":
+                try:
+                    twin.limit = -1
+                    return "ok"
+                except Exception as e:
+                    return str(e)
+            if tok[0] == "wait-boom":
+                twin.calls.append(("wait_boom", "-f" in tok))
+                return "boom"
+            if line == "big":
+                return twin.big()
+        except Exception:
+            return None
+        return None  # some message; only "exactly one non-empty reply" is checked
+
+    feed = [_json.dumps({"terminal_width": 80}).encode() + b"\n"] + [l.encode() + b"\n" for l in lines] + [b""]
+    sent: List[bytes] = []
+
+    async def readline():
+        return feed.pop(0)
+
+    async def drain():
+        return None
+
+    reader = MagicMock(readline=readline)
+    writer = MagicMock(write=sent.append, drain=drain)
+    server = MagicMock(pool=pool, client_class_name="X", is_serving=lambda: True)
+    out, err = io.StringIO(), io.StringIO()
+    session = ControlSession(server, reader, writer)
+    crashed = None
+    with contextlib.redirect_stdout(out), contextlib.redirect_stderr(err):
+        try:
+            await session.client_handshake()
+            await session.listen()
+        except BaseException as e:  # noqa
+            crashed = e
+    if crashed is not None:
+        viol.append(f"an exception escaped the session: {type(crashed).__name__}: {crashed} (after {len(sent) - 1} replies)")
+    if not sent or sent[0] != b"Dummy-7\n":
+        viol.append(f"handshake reply is {sent[:1]}, expected the pool's name")
+    replies = [b.decode() for b in sent[1:]]
+    if len(replies) != len(lines) and crashed is None:
+        viol.append(f"{len(lines)} non-blank lines sent, {len(replies)} replies written")
+    for line, rep in zip(lines, replies):
+        exp = await expected(line)
+        if not rep.endswith("\n") or not rep.strip():
+            viol.append(f"reply to {line!r} is empty: {rep!r}")
+        elif exp is not None and rep != exp + "\n":
+            viol.append(f"reply to {line!r} is {rep[:60]!r}, the call gives {exp[:60]!r}")
+        if line.endswith("-h") and "usage" not in rep.lower() and "add" not in rep:
+            viol.append(f"help request {line!r} answered {rep[:60]!r}")
+    if pool.calls != twin.calls:
+        viol.append(f"effects differ from direct calls: {pool.calls} vs {twin.calls}")
+    if out.getvalue() or err.getvalue():
+        viol.append(f"the session printed on stdout/stderr: {(out.getvalue() + err.getvalue())[:100]!r}")
+    # command surface
+    cmds = set(session._parser._commands.choices) if session._parser is not None and session._parser._commands else set()
+    want = {"add", "nothing", "empty", "many", "big", "wait-boom", "limit"}
+    if cmds != want:
+        viol.append(f"commands exposed: {sorted(cmds)}, expected {sorted(want)}")
+    return viol
+
+
 SCENARIOS: Dict[str, Callable] = {
     "lifecycle_mix": s_lifecycle_mix,
     "exception_in_body_map": s_exception_in_body_map,
@@ -634,6 +731,7 @@ SCENARIOS: Dict[str, Callable] = {
     "stop_lifo": s_stop_lifo,
     "lock_while_spawner_waits": s_lock_while_spawner_waits,
     "queue": s_queue,
+    "control_session": s_control_session,
 }
 
 BY_PROPERTY = {
@@ -653,6 +751,9 @@ BY_PROPERTY = {
     "C14": ["stop_lifo"],
     "C15": ["lock_while_spawner_waits"],
     "C20": ["queue"],
+    "C16": ["control_session"],
+    "C17": ["control_session"],
+    "C18": ["control_session"],
 }
 
 
